@@ -105,6 +105,12 @@ type agentRun struct {
 	events []ref.AgentEvent
 	curMsg *stun.Message
 	hs     [3]stun.Handler
+	// re-entrancy: on the first non-closed event of a top-level call the handler issues one nested call
+	reentry   int // 0 none, 1 Stop(same id), 2 Start(same id,t4), 3 Collect(t5), 4 Process(same id)
+	depth     int
+	nestedRet string
+	nestedEv  []ref.AgentEvent
+	nestedOn  *ref.AgentEvent
 }
 
 func retName(err error) string {
@@ -160,7 +166,29 @@ func (r *agentRun) handler(n int) stun.Handler {
 		if e.Error != nil && e.Message != nil {
 			ev.Kind += "+message"
 		}
+		if r.depth > 0 {
+			r.nestedEv = append(r.nestedEv, ev)
+			return
+		}
 		r.events = append(r.events, ev)
+		if r.reentry != 0 && r.nestedOn == nil && ev.Kind != ref.EvClosed {
+			evc := ev
+			r.nestedOn = &evc
+			r.depth++
+			var err error
+			switch r.reentry {
+			case 1:
+				err = r.a.Stop(e.TransactionID)
+			case 2:
+				err = r.a.Start(e.TransactionID, agentTime(4))
+			case 3:
+				err = r.a.Collect(agentTime(5))
+			case 4:
+				err = r.a.Process(&stun.Message{TransactionID: e.TransactionID})
+			}
+			r.nestedRet = retName(err)
+			r.depth--
+		}
 	}
 }
 
@@ -176,6 +204,7 @@ func newAgentRun() *agentRun {
 func (r *agentRun) apply(op agentOp) (key, detail string) {
 	r.events = r.events[:0]
 	r.curMsg = nil
+	r.nestedOn, r.nestedEv, r.nestedRet = nil, nil, ""
 	var err error
 	var wantRet string
 	var wantEv []ref.AgentEvent
@@ -218,11 +247,43 @@ func (r *agentRun) apply(op agentOp) (key, detail string) {
 			return "events/" + op.Kind, fmt.Sprintf("%v emitted %v, specification says %v", op, got, wantEv)
 		}
 	}
+	// the nested call made by the handler: the outer call has taken effect before its handler runs
+	if r.nestedOn != nil {
+		var nret string
+		var nev []ref.AgentEvent
+		id := r.nestedOn.ID
+		switch r.reentry {
+		case 1:
+			nret, nev = r.model.Stop(id, "ErrTransactionStopped")
+		case 2:
+			nret = r.model.Start(id, 4)
+		case 3:
+			nret, nev = r.model.Collect(5)
+		case 4:
+			nret, nev = r.model.Process(id, "another-message")
+		}
+		gotN := append([]ref.AgentEvent(nil), r.nestedEv...)
+		ref.SortEvents(gotN)
+		same := nret == r.nestedRet && len(gotN) == len(nev)
+		if same {
+			for i := range gotN {
+				if gotN[i] != nev[i] {
+					same = false
+				}
+			}
+		}
+		if !same {
+			return "reentrant/" + op.Kind, fmt.Sprintf("%v: the handler (on %v) called back with mode %d and got %s %v, specification says %s %v", op, *r.nestedOn, r.reentry, r.nestedRet, gotN, nret, nev)
+		}
+	}
 	return "", ""
 }
 
-func c13RunSeq(ops []agentOp) (r *agentRun, key, detail string) {
+func c13RunSeq(ops []agentOp) (r *agentRun, key, detail string) { return c13RunSeqMode(ops, 0) }
+
+func c13RunSeqMode(ops []agentOp, reentry int) (r *agentRun, key, detail string) {
 	r = newAgentRun()
+	r.reentry = reentry
 	p := catch(func() {
 		for i, op := range ops {
 			if k, d := r.apply(op); k != "" {
@@ -385,6 +446,40 @@ func init() {
 				}
 			}
 			rec(0)
+			// 2b. the same with handlers that call back into the agent (one nested call on the first event of each call)
+			rdepth := 3
+			if c.Thorough() {
+				rdepth = 4
+			}
+			rseq := make([]agentOp, rdepth)
+			var ritem int64
+			var rrec func(pos int)
+			rrec = func(pos int) {
+				if pos == rdepth {
+					for mode := 1; mode <= 4; mode++ {
+						c.Eval(1)
+						c.DistinctByConstruction++
+						c.Res.Traces++
+						if _, key, detail := c13RunSeqMode(rseq, mode); key != "" {
+							c.Violation(key, detail, map[string]interface{}{"reentry": mode, "ops": append([]agentOp(nil), rseq...)})
+							return
+						}
+					}
+					c.Outcome("reentrant-histories")
+					return
+				}
+				for _, op := range alpha {
+					rseq[pos] = op
+					if pos == 1 {
+						ritem++
+						if !c.Mine(ritem) {
+							continue
+						}
+					}
+					rrec(pos + 1)
+				}
+			}
+			rrec(0)
 			// 3. many ids at one Collect: n = 0..300 transactions, all / half / none of them expired
 			for n := 0; n <= 300; n++ {
 				if !c.Mine(int64(n)) {
@@ -418,6 +513,16 @@ func init() {
 			if json.Unmarshal(p, &many) == nil && many.N != nil {
 				if key, d := c13Many(*many.N, many.K); key != "" {
 					c.Violation(key, d, map[string]int{"many_n": *many.N, "many_k": many.K})
+				}
+				return
+			}
+			var re struct {
+				Reentry int       `json:"reentry"`
+				Ops     []agentOp `json:"ops"`
+			}
+			if json.Unmarshal(p, &re) == nil && re.Reentry != 0 {
+				if _, key, detail := c13RunSeqMode(re.Ops, re.Reentry); key != "" {
+					c.Violation(key, detail, map[string]interface{}{"reentry": re.Reentry, "ops": re.Ops})
 				}
 				return
 			}
